@@ -313,6 +313,13 @@ type ugmApp struct {
 	allocs []*resources.Resource
 }
 
+func btoi(b bool) int {
+	if b {
+		return 1
+	}
+	return 0
+}
+
 func (c *Ctx) ugmRes(maxv int) *resources.Resource {
 	r := resources.NewResource()
 	for _, k := range ugmKeys {
@@ -436,6 +443,245 @@ func (c *Ctx) ugmConf(have [3]bool, density float64) map[string]interface{} {
 	return map[string]interface{}{"name": "root", "limits": []interface{}{}, "queues": []interface{}{}}
 }
 
+// ---------------------------------------------------------------------------------------------- targeted reloads
+//
+// A reload whose ONLY change is the set (or the values) of the NAMED user / group limits of one queue that also carries
+// a wildcard limit, the wildcard entry staying exactly as it was: the users that fall back from their named limit to the
+// wildcard (or leave it for a named limit) must be under the limit of the latest configuration although "nothing
+// changed" for the wildcard itself.
+
+func ugmNames(l map[string]interface{}, key string) []string {
+	out := []string{}
+	if a, ok := l[key].([]interface{}); ok {
+		for _, e := range a {
+			out = append(out, e.(string))
+		}
+	}
+	return out
+}
+
+func ugmHas(l []string, s string) bool {
+	for _, e := range l {
+		if e == s {
+			return true
+		}
+	}
+	return false
+}
+
+func ugmWalk(q map[string]interface{}, parent string, depth int, f func(path string, depth int, q map[string]interface{})) {
+	path := jsonStr(q["name"])
+	if parent != "" {
+		path = parent + "." + path
+	}
+	f(path, depth, q)
+	if qs, ok := q["queues"].([]interface{}); ok {
+		for _, e := range qs {
+			ugmWalk(e.(map[string]interface{}), path, depth+1, f)
+		}
+	}
+}
+
+func ugmUnder(q, anc string) bool {
+	return q == anc || (len(q) > len(anc) && q[:len(anc)] == anc && q[len(anc)] == '.')
+}
+
+// the principals (users, or groups with groupSide) that hold live allocations in the queue or below it
+func ugmBusy(apps []*ugmApp, path string, groupSide bool) []string {
+	out := []string{}
+	for _, a := range apps {
+		if len(a.allocs) == 0 || !ugmUnder(a.q, path) {
+			continue
+		}
+		if !groupSide {
+			if !ugmHas(out, a.user) {
+				out = append(out, a.user)
+			}
+			continue
+		}
+		for _, g := range a.groups {
+			if !ugmHas(out, g) {
+				out = append(out, g)
+			}
+		}
+	}
+	return out
+}
+
+// ugmForceNamedAndWild returns a copy of the configuration in which the queue carries a named limit for the user (and for
+// the group, if any) AND a wildcard user limit (a wildcard group limit as well when a group is given and wildGroup is set);
+// nil when the validator refuses every attempt
+func (c *Ctx) ugmForceNamedAndWild(cfg map[string]interface{}, path, user, group string, wildGroup bool) map[string]interface{} {
+	for try := 0; try < 12; try++ {
+		n := norm(cfg)
+		ugmWalk(n, "", 0, func(p string, depth int, q map[string]interface{}) {
+			if p != path {
+				return
+			}
+			ls, _ := q["limits"].([]interface{})
+			namedU, namedG, wildU, wildG := false, false, false, false
+			for _, e := range ls {
+				l := e.(map[string]interface{})
+				us, gs := ugmNames(l, "users"), ugmNames(l, "groups")
+				namedU = namedU || ugmHas(us, user)
+				namedG = namedG || (group != "" && ugmHas(gs, group))
+				wildU = wildU || ugmHas(us, "*")
+				wildG = wildG || ugmHas(gs, "*")
+			}
+			front := []interface{}{}
+			if !namedU {
+				front = append(front, c.ugmLimit([]string{user}, []string{}, depth))
+			}
+			if group != "" && !namedG {
+				front = append(front, c.ugmLimit([]string{}, []string{group}, depth))
+			}
+			ls = append(front, ls...)
+			if !wildU {
+				ls = append(ls, c.ugmLimit([]string{"*"}, []string{}, depth))
+			}
+			if group != "" && wildGroup && !wildG {
+				ls = append(ls, c.ugmLimit([]string{}, []string{"*"}, depth))
+			}
+			q["limits"] = ls
+		})
+		n = norm(n)
+		if validConf(decQueueConf(n)) == nil {
+			return n
+		}
+	}
+	return nil
+}
+
+// ugmMutateNamed returns a copy of the configuration that differs in the named user (group) limits of ONE queue with a
+// wildcard user (group) limit only - a name dropped, a name added, or the values of a named entry changed - and what was
+// done ("drop" / "add" / "change", + ":busy" when the principal holds allocations there); nil when there is no such queue
+// or the validator refuses the attempts
+func (c *Ctx) ugmMutateNamed(cfg map[string]interface{}, apps []*ugmApp, groupSide bool) (map[string]interface{}, string) {
+	key, universe := "users", ugmUsers
+	if groupSide {
+		key, universe = "groups", ugmGroups[:2]
+	}
+	type cand struct {
+		path  string
+		named []string
+	}
+	cands := []cand{}
+	ugmWalk(norm(cfg), "", 0, func(p string, depth int, q map[string]interface{}) {
+		ls, _ := q["limits"].([]interface{})
+		wild := false
+		named := []string{}
+		for _, e := range ls {
+			for _, nm := range ugmNames(e.(map[string]interface{}), key) {
+				if nm == "*" {
+					wild = true
+				} else if !ugmHas(named, nm) {
+					named = append(named, nm)
+				}
+			}
+		}
+		if wild {
+			cands = append(cands, cand{p, named})
+		}
+	})
+	if len(cands) == 0 {
+		return nil, ""
+	}
+	for try := 0; try < 10; try++ {
+		cd := cands[c.pick(len(cands))]
+		busy := ugmBusy(apps, cd.path, groupSide)
+		kind := []string{"drop", "drop", "add", "change"}[c.pick(4)]
+		who := ""
+		switch kind {
+		case "drop", "change":
+			if len(cd.named) == 0 {
+				continue
+			}
+			who = cd.named[c.pick(len(cd.named))]
+			for _, b := range busy { // prefer a principal that holds allocations there
+				if ugmHas(cd.named, b) && c.chance(0.7) {
+					who = b
+					break
+				}
+			}
+		case "add":
+			free := []string{}
+			for _, nm := range universe {
+				if !ugmHas(cd.named, nm) {
+					free = append(free, nm)
+				}
+			}
+			if len(free) == 0 {
+				continue
+			}
+			who = free[c.pick(len(free))]
+			for _, b := range busy {
+				if ugmHas(free, b) && c.chance(0.7) {
+					who = b
+					break
+				}
+			}
+		}
+		n := norm(cfg)
+		ugmWalk(n, "", 0, func(p string, depth int, q map[string]interface{}) {
+			if p != cd.path {
+				return
+			}
+			ls, _ := q["limits"].([]interface{})
+			out := []interface{}{}
+			if kind == "add" {
+				if groupSide {
+					out = append(out, c.ugmLimit([]string{}, []string{who}, depth))
+				} else {
+					out = append(out, c.ugmLimit([]string{who}, []string{}, depth))
+				}
+			}
+			for _, e := range ls {
+				l := e.(map[string]interface{})
+				us, gs := ugmNames(l, "users"), ugmNames(l, "groups")
+				if ugmHas(us, "*") || ugmHas(gs, "*") || !ugmHas(ugmNames(l, key), who) {
+					out = append(out, l) // the wildcard entry (and every entry that does not name the principal) stays as it is
+					continue
+				}
+				switch kind {
+				case "drop":
+					keep := []interface{}{}
+					for _, nm := range ugmNames(l, key) {
+						if nm != who {
+							keep = append(keep, nm)
+						}
+					}
+					l[key] = keep
+					if len(ugmNames(l, "users"))+len(ugmNames(l, "groups")) > 0 {
+						out = append(out, l)
+					}
+				case "change":
+					f := c.ugmLimit([]string{}, []string{}, depth)
+					l["res"], l["apps"] = f["res"], f["apps"]
+					out = append(out, l)
+				default:
+					out = append(out, l)
+				}
+			}
+			q["limits"] = out
+		})
+		n = norm(n)
+		if b1, _ := json.Marshal(n); true {
+			if b0, _ := json.Marshal(norm(cfg)); string(b0) == string(b1) {
+				continue
+			}
+		}
+		if validConf(decQueueConf(n)) != nil {
+			c.stat("conf-rejected-by-validator")
+			continue
+		}
+		if ugmHas(busy, who) {
+			kind += ":busy"
+		}
+		return n, kind
+	}
+	return nil, ""
+}
+
 // genAndRun generates one case while executing it (the generator needs the answers of "sched" to know what is booked);
 // returns the operations for the re-runs
 func (d *ugmDrv) genAndRun() []map[string]interface{} {
@@ -478,11 +724,43 @@ func (d *ugmDrv) genAndRun() []map[string]interface{} {
 	base := func(a *ugmApp, name string) map[string]interface{} {
 		return map[string]interface{}{"op": name, "q": a.q, "app": a.id, "user": a.user, "groups": a.groups}
 	}
-	if c.chance(0.9) {
-		do(map[string]interface{}{"op": "conf", "cfg": c.ugmConf(have, density)})
+	// half of the cases aim at the fall back between a named and the wildcard limit: the first configuration gives the
+	// queue of one application a named limit for its user (and one of its groups) beside a wildcard limit, the
+	// application gets an allocation at once (its trackers exist), and most reloads only touch the named limits
+	var curCfg map[string]interface{}
+	fallback := c.chance(0.5)
+	if fallback || c.chance(0.9) {
+		cfg := c.ugmConf(have, density)
+		var ta *ugmApp
+		if fallback {
+			ta = apps[c.pick(len(apps))]
+			g := ""
+			for _, x := range ta.groups {
+				if ugmHas(ugmGroups[:2], x) && c.chance(0.5) {
+					g = x
+					break
+				}
+			}
+			if f := c.ugmForceNamedAndWild(cfg, ta.q, ta.user, g, c.chance(0.6)); f != nil {
+				cfg = f
+				c.stat("conf:named-and-wildcard-on-queue-of-app")
+			} else {
+				ta = nil
+			}
+		}
+		curCfg = norm(cfg)
+		do(map[string]interface{}{"op": "conf", "cfg": cfg})
+		if ta != nil {
+			res := c.ugmRes(3)
+			op := base(ta, "inc")
+			op["res"] = encRes(res)
+			do(op)
+			ta.allocs = append(ta.allocs, res)
+		}
 	}
 	nops := 10 + c.pick(26)
 	nconf := 0
+	nmut := 0
 	offContract := false
 	for j := 0; j < nops; j++ {
 		a := apps[c.pick(len(apps))]
@@ -522,6 +800,16 @@ func (d *ugmDrv) genAndRun() []map[string]interface{} {
 			op["rm"] = c.chance(0.5)
 			offContract = true
 		default:
+			if pm := 0.25 + 0.5*float64(btoi(fallback)); curCfg != nil && nmut < 4 && c.chance(pm) {
+				side := c.chance(0.3)
+				if mc, kind := c.ugmMutateNamed(curCfg, apps, side); mc != nil {
+					nmut++
+					c.stat("reload:named-only-beside-same-wildcard")
+					c.stat("reload:named-" + kind + "-beside-same-wildcard:" + map[bool]string{false: "user", true: "group"}[side])
+					op = map[string]interface{}{"op": "conf", "cfg": mc}
+					break
+				}
+			}
 			if nconf >= 4 {
 				continue
 			}
@@ -538,6 +826,9 @@ func (d *ugmDrv) genAndRun() []map[string]interface{} {
 		}
 		if offContract {
 			op["offc"] = true
+		}
+		if op["op"] == "conf" {
+			curCfg = norm(op["cfg"].(map[string]interface{}))
 		}
 		line := do(op)
 		if op["op"] == "sched" {
